@@ -6,6 +6,7 @@
   `compile` only contain modelled steps (LocalDate patterns do unless they use the era `g` / calendar `c` fields).
 -/
 import PyodaModel.Text.Buckets
+import PyodaModel.Text.WellFormed
 import PyodaProofs.C08
 import PyodaProofs.C08Create
 
@@ -737,20 +738,6 @@ theorem parsePats_offset_valid (l : Text) : ∀ (ps : List Pat) (v : List Int), 
 end
 
 /-! ## a success carries a valid value (LocalTime: every list of well-formed time steps) -/
-
-/-- the steps the LocalTime handler table can produce (field ranges as in `_LocalTimePatternParser`) -/
-def timeStepWF : Step → Bool
-  | .lit _ => true
-  | .semi => true
-  | .amPm _ => true
-  | .frac count scale _ => decide (count ≤ 9) && decide (scale = 9)
-  | .dotFrac count scale _ => decide (count ≤ 9) && decide (scale = 9)
-  | .num _ st _ _ minV maxV =>
-    (decide (st = .hours12) && decide (minV = 1) && decide (maxV = 12)) ||
-    (decide (st = .hours24) && decide (minV = 0) && decide (maxV = 23)) ||
-    (decide (st = .minutes) && decide (minV = 0) && decide (maxV = 59)) ||
-    (decide (st = .seconds) && decide (minV = 0) && decide (maxV = 59))
-  | _ => false
 
 /-- field values a LocalTime bucket can hold -/
 structure TimeBucketOK (b : Bucket) : Prop where
